@@ -247,11 +247,32 @@ def run_goals(pid, goals, shard=60, prec=64, timeout=900, header=HEADER):
     return failing, errors
 
 
+_PREVIOUS = {}
+
+
+def siblings(obj, xa):
+    """Evaluates earlier objects of the same dimension (other instances of the same classes, other parameters) at the
+    point that is about to be checked: instances must not share state.  Remembers `obj` for later calls."""
+    import numpy
+    d = xa.shape[0]
+    with numpy.errstate(all="ignore"):
+        for other in _PREVIOUS.get(d, [])[-2:]:
+            try:
+                other.misfit(xa.copy())
+                other.gradient(xa.copy())
+            except Exception:  # noqa
+                pass
+    _PREVIOUS.setdefault(d, []).append(obj)
+    if len(_PREVIOUS[d]) > 4:
+        _PREVIOUS[d].pop(0)
+
+
 def disturb(rnd, obj, xa, p=0.5):
     """Calls that must leave a distribution's misfit()/gradient() as they are: evaluations elsewhere, repeated
     evaluations, generate() with a private generator, corrector on copies.  Exceptions are ignored here (other
     checks look at them); what matters is that the evaluation that follows is unaffected."""
     import numpy
+    siblings(obj, xa)
     if rnd.random() > p:
         return "none"
     done = []
